@@ -156,6 +156,9 @@ func init() {
 	c18.Also = "reader-chunk"
 	c18.Real = append(append([]string{}, c18.Real...), "drpcwire.Reader over bytes of the vendored v0.0.17 Writer/SplitN (every 4th chunk of runs: reader-chunk engine)")
 	props["C18"] = c18
+	c04 := props["C04"]
+	c04.Quick = 64000
+	props["C04"] = c04
 	c06 := props["C06"]
 	c06.Quick = 48000
 	props["C06"] = c06
